@@ -2,7 +2,7 @@
    Only pinned statements, closed by [exact]; constants come from gen/Consts.v (regenerated
    from the compiled crates on every run). *)
 From Coq Require Import List NArith Bool.
-Require Import Consts Layout.
+Require Import Consts Layout LayoutP.
 Import ListNotations.
 Open Scope N_scope.
 
